@@ -2,7 +2,7 @@
    Model/Diagnostics.v is the executable reading over exact rationals; each run Coq compares it
    with the implementation's floats (tolerance) on generated observation sets. *)
 From Coq Require Import QArith ZArith List Bool Arith Permutation.
-From TJ Require Import Base.Corr Model.Diagnostics Proofs.DiagProofs.
+From TJ Require Import Base.Corr Base.XQ Base.ArgMax Model.Diagnostics Proofs.DiagProofs.
 Import ListNotations.
 Open Scope Q_scope.
 
@@ -42,15 +42,17 @@ Proof. exact (coverage_perm_invariant tref P n ts ts'). Qed.
 Theorem C19_coverage_counts_bins n ph : (occupied n ph <= n)%nat.
 Proof. exact (occupied_le n ph). Qed.
 
-(* MAP_sample: the returned row maximises ln_prior + ln_likelihood, and is the first such row *)
-Theorem C19_map_is_max l : l <> [] ->
-  let r := argmax l in
-  (r < length l)%nat /\ (forall i, (i < length l)%nat -> nth i l 0 <= nth r l 0) /\
-  (forall i, (i < r)%nat -> ~ nth r l 0 <= nth i l 0).
-Proof. exact (argmax_spec l). Qed.
+(* MAP_sample: the returned row maximises ln_prior + ln_likelihood (in the IEEE order, -inf lowest), and is the first such row *)
+Theorem C19_map_is_max (l : list XQ) : l <> [] ->
+  let r := gargmax xq_leb l in
+  (r < length l)%nat /\ (forall i, (i < length l)%nat -> xq_leb (nth i l XNInf) (nth r l XNInf) = true) /\
+  (forall i, (i < r)%nat -> xq_leb (nth r l XNInf) (nth i l XNInf) = false).
+Proof. exact (map_index_spec l). Qed.
 
 (* non-vacuity: phases .4 .5 .6 -- the largest empty arc is the one across the wrap, 0.8 *)
 Example C19_ex_wrap : max_phase_gap 0 1 [(4#10); (6#10); (5#10)] == (8#10).
+Proof. vm_compute. reflexivity. Qed.
+Example C19_ex_map : map_index [XFin (1#1); XNInf; XFin (0#1); XFin (2#1)] [XFin (1#1); XFin (9#1); XFin (3#1); XFin (1#1)] = 2%nat.
 Proof. vm_compute. reflexivity. Qed.
 Example C19_ex_cov : phase_coverage 0 1 10 [(4#10); (6#10); (5#10); (55#100)] == (3#10).
 Proof. vm_compute. reflexivity. Qed.
